@@ -45,6 +45,22 @@ func errorResultIndex(ci ssa.CallInstruction) int {
 	return n - 1
 }
 
+// errNotAFailingCall: callees whose error result is not the failure of a step of the operation - constructors of
+// error values, accessors, and writes to in-memory buffers / diagnostics / JSON encoding of the repo's own values.
+func errNotAFailingCall(name string) bool {
+	switch name {
+	case "errors.New", "fmt.Errorf", "errors.Join", "errors.Unwrap", "status.Error", "status.Errorf",
+		"(context.Context).Err", "encoding/json.Marshal", "encoding/json.MarshalIndent":
+		return true
+	}
+	for _, p := range []string{"fmt.Print", "fmt.Fprint", "bytes.(*Buffer).Write", "strings.(*Builder).Write", "(hash.Hash).Write", "log.", "log/slog."} {
+		if strings.HasPrefix(name, p) {
+			return true
+		}
+	}
+	return false
+}
+
 func exIsCallResult(e *Ex, ci ssa.CallInstruction) bool {
 	for _, a := range e.Alts() {
 		if a != nil && a.K == "call" && a.Call == ci {
@@ -72,9 +88,8 @@ func (c *Ctx) errorDisciplineSites(fn *ssa.Function) (sites []errSite, nCalls in
 		if idx == -2 {
 			continue
 		}
-		switch c.P.Describe(ci).Name {
-		case "errors.New", "fmt.Errorf", "errors.Join", "errors.Unwrap", "status.Error", "status.Errorf":
-			continue // these produce an error value, they do not fail
+		if errNotAFailingCall(c.P.Describe(ci).Name) {
+			continue
 		}
 		nCalls++
 		cut := NewCut()
@@ -187,10 +202,163 @@ func (c *Ctx) ruleErrorDiscipline(rule string, scope []*ssa.Function, tolerated 
 // DumpErrorDiscipline prints the census of the rule over every module function (debug aid).
 func DumpErrorDiscipline(p *Program) {
 	c := &Ctx{P: p, R: NewReport("dbg", "quick")}
-	for _, fn := range p.Funcs {
-		sites, _ := c.errorDisciplineSites(fn)
-		for _, s := range sites {
-			fmt.Printf("%s|%s\t%s\t%s -> %s\n", p.FuncKey(fn), s.Callee, s.Kind, p.InstrPos(s.Call), p.InstrPos(s.Ret))
+	for _, top := range p.Funcs {
+		if top.Parent() != nil {
+			continue
+		}
+		for _, fn := range WithClosures(top) {
+			sites, _ := c.errorDisciplineSites(fn)
+			for _, s := range sites {
+				fmt.Printf("%s|%s\t%s\t%s -> %s\n", p.FuncKey(top), s.Callee, s.Kind, p.InstrPos(s.Call), p.InstrPos(s.Ret))
+			}
 		}
 	}
+}
+
+// ruleErrorDisciplinePkgs applies the rule to every function of the given module packages (relative paths).
+// A function that does not exist on the reference tree is examined as part of each reference function that
+// reaches it (OpFuncs), so the frozen table is keyed by reference function + callee and survives helper
+// extraction, closures being added or removed, and renames.
+func (c *Ctx) ruleErrorDisciplinePkgs(rule string, pkgs []string, tolerated map[string]string, minFuncs int) {
+	inPkg := func(f *ssa.Function) bool {
+		top := EnclosingTop(f)
+		if top.Pkg == nil {
+			return false
+		}
+		rel := c.P.Rel(top.Pkg.Pkg.Path())
+		for _, p := range pkgs {
+			if rel == p || (strings.HasSuffix(p, "/*") && strings.HasPrefix(rel, strings.TrimSuffix(p, "*"))) {
+				return true
+			}
+		}
+		return false
+	}
+	used := map[string]bool{}
+	covered := map[*ssa.Function]bool{}
+	nFuncs, nCalls := 0, 0
+	check := func(top *ssa.Function, fns []*ssa.Function) {
+		fk := c.P.FuncKey(top)
+		bad := map[string]errSite{}
+		n := 0
+		for _, fn := range fns {
+			if fn.Blocks == nil {
+				continue
+			}
+			covered[fn] = true
+			sites, k := c.errorDisciplineSites(fn)
+			n += k
+			for _, s := range sites {
+				key := fk + "|" + s.Callee
+				if _, ok := tolerated[key]; ok {
+					used[key] = true
+					continue
+				}
+				if _, dup := bad[s.Callee]; !dup {
+					bad[s.Callee] = s
+				}
+			}
+		}
+		if n == 0 {
+			return
+		}
+		nFuncs++
+		nCalls += n
+		if len(bad) == 0 {
+			c.R.Check(rule, fk, "no failed call is answered with success", c.P.Pos(top.Pos()), true,
+				"the error of every call is tested nil, classified or handed on before a return that may report success",
+				fmt.Sprintf("%d error-returning calls", n))
+			return
+		}
+		var names []string
+		for k := range bad {
+			names = append(names, k)
+		}
+		sort.Strings(names)
+		for _, k := range names {
+			s := bad[k]
+			c.R.Check(rule, fk, "error of "+k+" not dropped", c.P.InstrPos(s.Call), false,
+				"the error of every call is tested nil, classified or handed on before a return that may report success",
+				fmt.Sprintf("%s: a return that may report success (%s) is reachable after a failure of %s in %s: %s", s.Kind, c.P.InstrPos(s.Ret), k, s.Fn.String(), s.Path))
+		}
+	}
+	saved := c.scope
+	for _, f := range c.P.Funcs {
+		if f.Parent() != nil || !inPkg(f) || c.P.IsNewFunc(f) {
+			continue
+		}
+		check(f, c.OpFuncs(f))
+	}
+	// functions new on this tree that no reference function reaches are examined on their own
+	for _, f := range c.P.Funcs {
+		if f.Parent() != nil || !inPkg(f) || covered[f] {
+			continue
+		}
+		check(f, WithClosures(f))
+	}
+	c.scope = saved
+	c.R.Check(rule, "-", "census", "", nFuncs >= minFuncs, "the rule examined the expected number of functions",
+		fmt.Sprintf("%d functions with %d error-returning calls (minimum %d functions)", nFuncs, nCalls, minFuncs))
+	var stale []string
+	for k := range tolerated {
+		if !used[k] {
+			stale = append(stale, k)
+		}
+	}
+	sort.Strings(stale)
+	if len(stale) > 0 {
+		c.R.Note("%s: tolerated entries without a matching site on this tree (harmless): %s", rule, strings.Join(stale, ", "))
+	}
+}
+
+// errToleratedMint: the sites of the mint side where today's tree deliberately continues after a failed call
+// (reference function + callee; each confirmed by reading).
+var errToleratedMint = map[string]string{
+	"cashu.DecodeToken|cashu.DecodeTokenV4":                                                          "V4 is tried first; on failure the V3 decoder decides and its error is returned",
+	"cashu.DecodeTokenV3|encoding/base64.(*Encoding).DecodeString":                                   "URL-safe alphabet failed: the standard alphabet is tried, whose error is returned",
+	"cashu.DecodeTokenV4|encoding/base64.(*Encoding).DecodeString":                                   "URL-safe alphabet failed: the raw alphabet is tried, whose error is returned",
+	"cashu/nuts/nut01.(*GetKeysResponse).UnmarshalJSON|encoding/json.Unmarshal":                      "keysets with a non-hex id or undecodable keys are skipped by design (foreign-unit keysets)",
+	"cashu/nuts/nut06.(*MintInfo).UnmarshalJSON|encoding/json.Unmarshal":                             "optional info fields: an undecodable optional field is left at its zero value",
+	"cashu/nuts/nut06.(*Nuts).UnmarshalJSON|encoding/json.Unmarshal":                                 "NUT-15 settings come in two historical shapes; the second is tried when the first fails",
+	"cashu/nuts/nut11.VerifyP2PKLockedProof|encoding/json.Unmarshal":                                 "an undecodable witness is an empty witness: the signature count below then fails (C12.R1 decides that)",
+	"cashu/nuts/nut14.VerifyHTLCProof|encoding/json.Unmarshal":                                       "an undecodable witness is an empty witness: the preimage test below then fails (C13.R1 decides that)",
+	"mint.(*Client).close|websocket.(*Conn).Close":                                                   "closing a websocket that is already gone",
+	"mint.(*Mint).GetMeltQuoteState|(mint/lightning.Client).OutgoingPaymentStatus":                   "a failed look-up is classified (not found => release, other => stay pending); C05 decision table decides the handling",
+	"mint.(*Mint).MeltTokens|(mint/lightning.Client).OutgoingPaymentStatus":                          "as above (C05 decision table)",
+	"mint.(*Mint).MeltTokens|(mint/lightning.Client).PayPartialAmount":                               "a failed pay call is turned into status Failed and followed by the look-up (C05 decision table)",
+	"mint.(*Mint).MeltTokens|(mint/lightning.Client).SendPayment":                                    "as above (C05 decision table)",
+	"mint.(*Mint).MeltTokens|(mint/storage.MintDB).GetMintQuoteByPaymentHash":                        "a miss means 'not an invoice of this mint': the external payment branch is taken",
+	"mint.(*Mint).RequestMeltQuote|(mint/storage.MintDB).GetMintQuoteByPaymentHash":                  "a miss means 'not an invoice of this mint' (C02.R7 decides what follows)",
+	"mint.(*Mint).RequestMeltQuote|(mint/storage.MintDB).GetMeltQuoteByPaymentRequest":               "existence probe: only a non-nil quote matters",
+	"mint.(*Mint).verifyProofs|cashu/nuts/nut10.DeserializeSecret":                                   "a secret that is not a NUT-10 secret is a plain secret (C12.R8 decides the parser)",
+	"mint.(*MintServer).Start|net/http.(*Server).ListenAndServe":                                     "http.ErrServerClosed is the normal shutdown answer",
+	"mint.decodeJsonReqBody|encoding/json.(*Decoder).Decode":                                         "the decoder error is classified by type and always turned into a cashu error (C20.R3 decides that)",
+	"mint/lightning.(*LndClient).OutgoingPaymentStatus|(routerrpc.RouterClient).TrackPaymentV2":      "a context deadline is answered as Pending, every other error returned",
+	"mint/lightning.(*LndClient).OutgoingPaymentStatus|(routerrpc.Router_TrackPaymentV2Client).Recv": "a context deadline is answered as Pending, every other error returned",
+	"mint/lightning.(*LndClient).SendPayment|(lnrpc.LightningClient).SendPaymentSync":                "a context deadline is answered as Pending, every other error returned",
+	"mint/storage/sqlite.InitSQLite|migrate.(*Migrate).Up":                                           "migrate.ErrNoChange is success",
+}
+
+// errToleratedWallet: the same for the wallet side.
+var errToleratedWallet = map[string]string{
+	"wallet.(*Wallet).Receive|cashu/nuts/nut10.DeserializeSecret":               "a secret that is not a NUT-10 secret is a plain secret",
+	"wallet.(*Wallet).swapToTrusted|cashu/nuts/nut10.DeserializeSecret":         "as above",
+	"wallet.(*Wallet).getActiveKeyset|encoding/hex.DecodeString":                "keysets with a non-hex id are skipped by design",
+	"wallet.(*Wallet).loadWalletMints|encoding/hex.DecodeString":                "as above",
+	"wallet.GetMintInactiveKeysets|encoding/hex.DecodeString":                   "as above",
+	"wallet.Restore|encoding/hex.DecodeString":                                  "as above",
+	"wallet.Restore|os.Stat":                                                    "existence probe: success of Stat is the refusal",
+	"wallet.(*Wallet).selectProofsForAmount|wallet.selectProofsToSend":          "called only when the bucket holds at least the amount, the one condition under which it fails (C18.R1 decides the selection)",
+	"wallet.(*Wallet).getProofsForAmount|(wallet/storage.WalletDB).DeleteProof": "storage fault of the wallet's own file: outside the quantifier of C17 (no wallet storage faults); today's code does not test it",
+	"wallet.(*Wallet).swapToSend|(wallet/storage.WalletDB).DeleteProof":         "as above",
+	"wallet.(*Wallet).loadWalletMints|(wallet/storage.WalletDB).SaveKeyset":     "as above (caching fetched public keys)",
+	"wallet/storage.(*BoltDB).GetInvoices|encoding/json.Unmarshal":              "an undecodable stored record is skipped when listing",
+	"wallet/storage.(*BoltDB).GetInvoice|encoding/json.Unmarshal":               "an undecodable stored record reads as absent",
+	"wallet/storage.(*BoltDB).GetMeltQuoteById|encoding/json.Unmarshal":         "an undecodable stored record reads as absent",
+	"wallet/storage.(*BoltDB).GetMeltQuotes|encoding/json.Unmarshal":            "an undecodable stored record is skipped when listing",
+	"wallet/storage.(*BoltDB).GetMintQuotes|encoding/json.Unmarshal":            "an undecodable stored record is skipped when listing",
+	"wallet/storage.(*BoltDB).GetPendingProofs|encoding/json.Unmarshal":         "an undecodable stored record is skipped when listing (C17.R6 decides that every stored entry is visited)",
+	"wallet/storage.(*BoltDB).GetProofs|encoding/json.Unmarshal":                "as above",
+	"wallet/storage.(*BoltDB).MigrateInvoicesToQuotes|bbolt.(*DB).Update":       "one-off migration clean-up of the old bucket",
+	"wallet/storage.(*BoltDB).MigrateInvoicesToQuotes|bbolt.(*Tx).DeleteBucket": "one-off migration clean-up of the old bucket",
+	"wallet/storage.(*BoltDB).SaveMnemonicSeed|bbolt.(*Bucket).Put":             "written once at wallet creation inside one Update whose own error is returned",
 }
